@@ -194,6 +194,11 @@ impl Watcher {
             return Err(AddAppointmentFailure::AlreadyTriggered);
         }
 
+        // The locator cache is locked for the whole charge-and-store sequence: the slots are charged against what is
+        // currently stored under `uuid`, so two concurrent submissions of the same appointment must not both be
+        // charged before either of them has stored it.
+        let locator_cache = self.locator_cache.lock().unwrap();
+
         // TODO: This is not atomic, we update the users slots and THEN add their appointment
         // this means it can happen that we update the slots but some failure happens before we insert their appointment.
         let available_slots = self
@@ -205,12 +210,7 @@ impl Watcher {
         // This will hang, the request will timeout but be accepted. However, the user will not be handed the receipt.
         // This could be fixed adding a thread to take care of storing while the main thread returns the receipt.
         // Not fixing this atm since working with threads that call self.method is surprisingly non-trivial.
-        match self
-            .locator_cache
-            .lock()
-            .unwrap()
-            .get(&extended_appointment.locator())
-        {
+        match locator_cache.get(&extended_appointment.locator()) {
             // Appointments that were triggered in blocks held in the cache
             Some(dispute_tx) => {
                 self.store_triggered_appointment(uuid, &extended_appointment, user_id, dispute_tx);
@@ -220,6 +220,7 @@ impl Watcher {
                 self.store_appointment(uuid, &extended_appointment);
             }
         };
+        drop(locator_cache);
 
         let mut receipt = AppointmentReceipt::new(
             extended_appointment.user_signature,
@@ -719,7 +720,7 @@ mod tests {
         let user_sig = cryptography::sign(&appointment.to_vec(), &user_sk);
 
         // Add the appointment for a new user (twice so we can check that updates work)
-        for _ in 0..2 {
+        for _ in 0..4 {
             let (receipt, slots, expiry) = watcher
                 .add_appointment(appointment.clone(), user_sig.clone())
                 .unwrap();
